@@ -470,6 +470,9 @@ class ParserText(ParserBase):
         except ValueError as e:
             six.raise_from(InvalidValue(value, type(self), 'value'), e)
 
+        if date_time.tzinfo is None:
+            date_time = date_time.replace(tzinfo=dateutil.tz.UTC)
+
         self._parsed_values[name] = date_time
         self._parsed_length = len(self._parsable)
 
